@@ -1,7 +1,7 @@
 SPECIFICATION Spec
 CONSTANTS
   W = {"w1", "w2"}
-  MaxBody = 1
+  MaxBody = 0
   Faults = 1
   Stale = {1}
   NNames = 4
